@@ -19,7 +19,7 @@ impl Family {
     pub fn maxlen(&self, thorough: bool) -> u32 {
         // quick bound per family; thorough = one item longer where the alphabet is small (<= 9 items)
         let quick: u32 = match self.name {
-            "frozen-constant-body" | "symbol-named-like-a-parameter" | "subrule-operand" | "constant-size-flips-with-a-label" => 4,
+            "frozen-constant-body" | "symbol-named-like-a-parameter" | "subrule-operand" | "constant-size-flips-with-a-label" | "data-in-range-only-after-shrinking" => 4,
             "late-flipping-boolean-constant" => 5,
             _ => 3,
         };
@@ -137,6 +137,9 @@ pub fn families() -> Vec<Family> {
                 Item::Instr("lx [B]".into()),
                 Item::Instr("lx [$]".into()),
                 Item::Instr("lx #A".into()),
+                // parameterless alternatives whose production reads an address
+                Item::Instr("lx toA".into()),
+                Item::Instr("lx here".into()),
                 Item::Label("A".into()),
                 Item::Label("B".into()),
                 Item::Instr("nop".into()),
@@ -190,6 +193,27 @@ pub fn families() -> Vec<Family> {
             ],
         },
         Family {
+            // a candidate whose width cannot be read off its production without evaluating it (a conditional with branches
+            // of different width) next to a really smaller candidate of static width: "smallest" means the real size
+            name: "candidate-of-non-static-width",
+            rules: with(vec![RuleSrc::new("jmp {a: u8}", "0x73 @ a"), RuleSrc::new("jmp {a}", "a < 0x1000 ? 0xa0 @ a`16 : 0xb0 @ a`24")]),
+            items: common_items(),
+        },
+        Family {
+            // data whose value is only in range once an over-estimated instruction between two labels has shrunk
+            // (guess 256 / -129, final 255 / -128): a range check on a guess must not be final
+            name: "data-in-range-only-after-shrinking",
+            rules: vec![RuleSrc::new("jb {a}", "{ assert(a < 6), 0xa @ a`4 }"), RuleSrc::new("jb {a}", "0xb0 @ a`8"), RuleSrc::new("nop", "0x00")],
+            items: vec![
+                Item::Label("A".into()),
+                Item::Instr("jb B".into()),
+                Item::Label("B".into()),
+                Item::Data(Some(8), vec!["254 + (B - A)".into()]),
+                Item::Data(Some(8), vec!["(A - B) - 127".into()]),
+                Item::Instr("nop".into()),
+            ],
+        },
+        Family {
             // the short form's body is a constant: only the assert looks at the operand
             name: "assert-constant-body",
             rules: with(vec![RuleSrc::new("jmp {a}", "{ assert(a < 4), 0xaa }"), RuleSrc::new("jmp {a}", "0xbbbb")]),
@@ -213,7 +237,7 @@ pub fn families() -> Vec<Family> {
 pub fn prog_of(f: &Family, seq: &[usize]) -> Prog {
     let mut ruledefs = vec![];
     if f.rules.iter().any(|r| r.pattern.contains(": ind}")) {
-        ruledefs.push(RuleDefSrc { name: Some("ind".into()), sub: true, rules: vec![RuleSrc::new("[{v}]", "0x1 @ v`8"), RuleSrc::new("#{v: u8}", "0x2 @ v")] });
+        ruledefs.push(RuleDefSrc { name: Some("ind".into()), sub: true, rules: vec![RuleSrc::new("[{v}]", "0x1 @ v`8"), RuleSrc::new("#{v: u8}", "0x2 @ v"), RuleSrc::new("toA", "0x4 @ A`8"), RuleSrc::new("here", "0x5 @ $`8")] });
     }
     ruledefs.push(RuleDefSrc { name: None, sub: false, rules: f.rules.clone() });
     Prog { ruledefs, items: seq.iter().map(|i| f.items[*i].clone()).collect() }
@@ -457,7 +481,7 @@ pub fn quick_budgets() -> Vec<usize> {
 pub fn run(ctx: &Ctx) -> Report {
     let mut rep = Report::new(
         "model_checking",
-        "fourteen rule families with value-dependent encodings (assert cascades with 2 and 3 sizes, typed-width cascade, pc-relative, far-is-short with no/oscillating fixed points, tie next to a cascade) x all item sequences up to a length over 15 items x iteration budgets x the 4 optimisation-switch combinations, plus the skeleton grid (forward chains of length 0..12, with and without an oscillator) x budgets 1..30 x 4; every claimed success is re-derived from its own final symbol values and instruction sizes (certificate). Non-trivial = program that needed >= 2 passes under some configuration; distinct by program text. states = distinct (program, per-pass state digest) pairs read through hook H2, transitions = resolver passes executed.",
+        "sixteen rule families with value-dependent encodings (assert cascades with 2 and 3 sizes, typed-width cascade, pc-relative, far-is-short with no/oscillating fixed points, tie next to a cascade) x all item sequences up to a length over 15 items x iteration budgets x the 4 optimisation-switch combinations, plus the skeleton grid (forward chains of length 0..12, with and without an oscillator) x budgets 1..30 x 4; every claimed success is re-derived from its own final symbol values and instruction sizes (certificate). Non-trivial = program that needed >= 2 passes under some configuration; distinct by program text. states = distinct (program, per-pass state digest) pairs read through hook H2, transitions = resolver passes executed.",
     );
     let fams = families();
     // sequence families: budgets around the pass counts that occur (1..6), the default and its neighbour, and a large
